@@ -1,6 +1,7 @@
 import ClaripyProofs.Lemmas.Str.Ops
 import ClaripyProofs.Lemmas.Str.Digits
 import ClaripyProofs.Lemmas.Str.CodecOut
+import ClaripyProofs.Lemmas.Str.SpecChar
 /-!
 # C03 — string operations mean the same folded and solved, for every character
 
@@ -29,6 +30,23 @@ theorem findAt_complete (t s : S) (h : Spec.findAt t s 0 = none) : ∀ i ≤ s.l
 
 example : Spec.findAt [98] [97, 98, 98] 0 = some 1 := by decide
 example : Spec.findAt [99] [97, 98, 98] 0 = none := by decide
+
+/-- `str.contains s t` holds exactly when `s = u1 ++ t ++ u2` -/
+theorem contains_char (s t : S) : Spec.contains s t = true ↔ t <:+: s := contains_iff_infix s t
+
+/-- `str.replace` in the words of the standard: unchanged if `t` does not occur; otherwise `u1 ++ r ++ u2` where
+`s = u1 ++ t ++ u2` and `u1` is the shortest such prefix -/
+theorem replace_char (s t r : S) :
+    (¬ t <:+: s → Spec.replace s t r = s) ∧
+    (t <:+: s → ∃ u1 u2, s = u1 ++ t ++ u2 ∧ Spec.replace s t r = u1 ++ r ++ u2 ∧
+      ∀ v1 v2, s = v1 ++ t ++ v2 → u1.length ≤ v1.length) := Claripy.Str.replace_char s t r
+
+/-- `str.indexof s t i` (`i ≤ |s|`): the smallest position `j ≥ i` where `t` occurs, -1 if there is none -/
+theorem indexof_char (s t : S) (i : Nat) (hi : i ≤ s.length) :
+    (∀ j, Spec.findAt t (s.drop i) i = some j → i ≤ j ∧ t <+: s.drop j ∧ (∀ k, i ≤ k → k < j → ¬ t <+: s.drop k) ∧
+      Spec.indexof s t i = j % M64) ∧
+    (Spec.findAt t (s.drop i) i = none → (∀ k, i ≤ k → k ≤ s.length → ¬ t <+: s.drop k) ∧ Spec.indexof s t i = minusOne) :=
+  Claripy.Str.indexof_char s t i hi
 
 /-- `str.from_int` is a right inverse of `str.to_int`, is never empty and has no leading zero -/
 theorem fromInt_toInt (n : Nat) :
